@@ -214,6 +214,40 @@ def r_allocout(prog, R):
                 r.viol(k, f.name, f.loc(el), "%s stores the result of %s() in *%s and can return without ever testing it: when that allocation fails the caller is told the call succeeded and receives NULL" % (f.name, cn["callee"], out))
 
 
+def r_registered(prog, R):
+    r = R.rule("R-C14-REGISTERED", "a hosts entry that the lookup tables already own (it was found by a match and merged into) is never released by the code that failed to extend it", floor=2,
+               analysis="A-VS typestate (fresh / registered) on the entry variable")
+    f = prog.func("ares_hosts_file_add")
+    # variables filled by the match lookup
+    matchvars = set()
+    for b, i, c in f.calls_to("ares_hosts_file_match"):
+        for a in c.get("args", []):
+            a2 = strip(a)
+            if a2 is not None and a2.get("k") == "un" and a2["op"] == "&" and is_var(strip(a2["e"])):
+                matchvars.add(strip(a2["e"])["n"])
+    if not r.require(matchvars, "ares_hosts_file_add: match out-parameter not found"):
+        return
+
+    def on_el(extra, blk, i, el, get):
+        if el["k"] == "asg" and el["e"]["op"] == "=" and is_var(strip(el["e"]["l"])) and is_var(strip(el["e"].get("r"))) and strip(el["e"]["r"])["n"] in matchvars:
+            return [tuple(sorted(set(extra) | {strip(el["e"]["l"])["n"]}))]
+        return [extra]
+    vs = ValueSets(prog, f, on_el=on_el, init_extra=tuple(sorted(matchvars)), cap=4096)
+    n = 0
+    for b, i, c in sorted(f.calls_to("ares_hosts_entry_destroy"), key=lambda x: x[2]["ln"]):
+        a = strip(call_arg(c, 0))
+        if a is None or a.get("k") != "var":
+            continue
+        n += 1
+        k = "destroy(%s)@%s" % (a["n"], "merge-failed" if n == 1 else "insert-failed#%d" % (n - 1))
+        reg = [st for st in vs.states_at(b, i) if a["n"] in st[1]]
+        if reg:
+            r.viol(k, f.name, f.loc(c["ln"]), "ares_hosts_entry_destroy(%s) can run when '%s' is the entry found by ares_hosts_file_match, which iphash/hosthash already own: its reference count drops to zero and it is freed while the tables still point at it (after a single failed allocation)" % (a["n"], a["n"]))
+        else:
+            r.ok(k, f.loc(c["ln"]))
+    r.require(n >= 2, "fewer destroy sites in ares_hosts_file_add than confirmed by hand (%d)" % n)
+
+
 def run(prog, R, tier):
     R.assume("a store into a struct field transfers ownership iff the library releases objects through that field somewhere (inferred), plus 9 container link fields")
     files = None if tier == "thorough" else ANCHORED
@@ -221,5 +255,6 @@ def run(prog, R, tier):
     r_prealloc(prog, R)
     r_allocpath(prog, R)
     r_allocout(prog, R)
+    r_registered(prog, R)
     E = effects.Effects(prog)
     C01.r_once(prog, R, E, rid="R-C14-ONCE")
